@@ -29,6 +29,8 @@ func runC04(c *fw.Ctx) {
 	r43(c)
 	r44(c)
 	r45(c)
+	kindClassifiers(c, "R4.6")
+	scopedOverrides(c, "R4.7", 1)
 }
 
 func r41(c *fw.Ctx) {
